@@ -5,9 +5,12 @@
 //! once with `Any`; judged by `Sim`.
 
 use crate::corelab::*;
+use crate::env::{Fallback, ScriptedRandom};
 use crate::*;
 use serde_json::{Value, json};
+use rosomaxa::prelude::Random;
 use std::collections::HashSet;
+use std::sync::Arc;
 use vrp_core::construction::heuristics::*;
 use vrp_core::models::problem::Job;
 
@@ -196,8 +199,88 @@ fn departures(v: &VehicleT) -> Vec<f64> {
     if v.start_latest > v.start_earliest { vec![v.start_earliest, (v.start_earliest + v.start_latest) / 2., v.start_latest] } else { vec![v.start_earliest] }
 }
 
+/// Long tours: filler services in location order, every regular job evaluated at every concrete leg and with Any under the
+/// STOCHASTIC leg selection (sampled once more than 32 / 48 legs are left) for several random streams: whatever the
+/// selection returns has to simulate feasible - in particular the later part of a multi-task job never lands before the earlier one.
+fn long_tours(ctx: &RunCtx, report: &mut Report) {
+    let n_fill = 64;
+    let regular = tasks().len();
+    let streams: Vec<u64> = ctx.tier.pick(vec![0, 1, 2, 3], vec![0, 1, 2, 3, 4, 5, 6, 7, 8, 9, 10, 11]);
+    let lengths: Vec<usize> = ctx.tier.pick(vec![20, 36, 52, 64], vec![16, 20, 28, 36, 44, 52, 58, 64]);
+    let mut work: Vec<(usize, usize, u64)> = vec![];
+    for v in [0usize, 2, 6] {
+        for l in &lengths {
+            for s in &streams {
+                work.push((v, *l, *s));
+            }
+        }
+    }
+    let parts = par_map(ctx.threads, work.len(), |wi| {
+        let (vehicle, len, stream) = work[wi];
+        let lab = Lab::with_tasks(GoalKind::Cost, tasks_with_fillers(n_fill));
+        let mut r = Report::new("exploration");
+        let vt = lab.vehicles[vehicle].clone();
+        let seq: Vec<Visit> = (0..len).map(|i| Visit { task: regular + i * n_fill / len, place: 0, window: 0 }).collect();
+        let departure = vt.start_earliest;
+        if !sim(&lab.tasks, &vt, &seq, departure).feasible {
+            r.error(format!("long tour of {len} fillers is infeasible on {}", vt.id));
+            return r;
+        }
+        let rc = lab.route(vehicle, &seq, Some(departure));
+        let legs = rc.route().tour.legs().count();
+        let selector = BestResultSelector::default();
+        let random: Arc<dyn Random> = Arc::new(ScriptedRandom::new(vec![], if stream == 0 { Fallback::Default } else { Fallback::Stream(stream) }));
+        let leg_selection = LegSelection::Stochastic(random);
+        let regular_jobs: Vec<usize> = (0..lab.jobs.len()).filter(|j| (0..regular).any(|t| lab.tasks[t].job == *j)).collect();
+        for &j in &regular_jobs {
+            let job = &lab.jobs[j];
+            let ictx = lab.context(vehicle, lab.route(vehicle, &seq, Some(departure)), &[j]);
+            let route_ref = &ictx.solution.routes[0];
+            let eval_ctx = EvaluationContext { goal: &lab.problem.goal, job, leg_selection: &leg_selection, result_selector: &selector };
+            let positions: Vec<InsertionPosition> = (0..legs).map(InsertionPosition::Concrete).chain(std::iter::once(InsertionPosition::Any)).collect();
+            for position in positions {
+                let pos_json = match position {
+                    InsertionPosition::Concrete(p) => json!(p),
+                    _ => json!("any"),
+                };
+                let scen = json!({"part": "long", "vehicle": vehicle, "length": len, "stream": stream, "job": j, "position": pos_json});
+                r.add_count("long_tour_evaluations", 1);
+                r.add_count("evaluations", 1);
+                match catch(|| eval_job_insertion_in_route(&ictx, &eval_ctx, route_ref, position, InsertionResult::make_failure())) {
+                    Err(pn) => r.violation(Violation::new(format!("panic@{}", panic_site(&pn)), pn, scen)),
+                    Ok(InsertionResult::Success(success)) => {
+                        r.add_count("long_tour_successes", 1);
+                        match apply_to_sequence(&lab, &seq, &success) {
+                            Ok(new_seq) => {
+                                let s = sim(&lab.tasks, &vt, &new_seq, departure);
+                                if !s.feasible {
+                                    r.violation(Violation::new(
+                                        format!("unsound:{}:long-tour", class_of(&s.why)),
+                                        format!("stochastic leg selection (stream {stream}) puts {} into a tour of {len} fillers at {:?}; simulation says: {}", job_name(&lab, j), success.activities.iter().map(|(_, i)| *i).collect::<Vec<_>>(), s.why),
+                                        scen,
+                                    ));
+                                }
+                            }
+                            Err(e) => r.violation(Violation::new("malformed-success:long-tour", e, scen)),
+                        }
+                    }
+                    Ok(InsertionResult::Failure(_)) => r.add_count("long_tour_failures", 1),
+                }
+            }
+        }
+        r
+    });
+    for p in parts {
+        report.merge(p);
+    }
+}
+
 pub fn run(ctx: &RunCtx) -> Report {
     let mut report = Report::new("exploration");
+    long_tours(ctx, &mut report);
+    if report.get_count("long_tour_successes") == 0 {
+        report.error("vacuous: no insertion into a long tour succeeded");
+    }
     let max_len = ctx.tier.pick(4, 7);
     let all = sequences(&tasks(), max_len);
     let nveh = vehicles().len();
@@ -254,6 +337,14 @@ pub fn run(ctx: &RunCtx) -> Report {
 }
 
 pub fn replay(_ctx: &RunCtx, scenario: &Value) -> Result<Vec<Violation>, String> {
+    if scenario["part"] == "long" {
+        // the long-tour axis is small: it is run again as a whole (thorough parameters contain the quick ones)
+        let mut r = Report::new("exploration");
+        let ctx = RunCtx { tier: Tier::Thorough, .._ctx.clone() };
+        long_tours(&ctx, &mut r);
+        let same = |v: &Violation| ["vehicle", "length", "stream", "job", "position"].iter().all(|k| v.scenario[*k] == scenario[*k]);
+        return Ok(r.violations.into_iter().filter(same).collect());
+    }
     let lab = Lab::new(GoalKind::Cost);
     let vehicle = scenario["vehicle"].as_u64().ok_or("vehicle")? as usize;
     let seq = visits_from(&scenario["tour"]);
